@@ -21,7 +21,7 @@ def _floors(q_runs, t_runs, extra_q=None, extra_t=None):
          "sets": {"completion_orders": q_runs // 3}}
     t = {"evaluations": 6000, "distinct_nontrivial": 4000,
          "counters": {"controlled_runs": t_runs, "queue_rebinding_hits": t_runs, "pool_runs": 1000},
-         "sets": {"completion_orders": t_runs // 3}}
+         "sets": {"completion_orders": int(t_runs * 0.6)}}
     q["counters"].update(extra_q or {})
     t["counters"].update(extra_t or {})
     return {"quick": q, "thorough": t}
@@ -35,7 +35,7 @@ _SPACE = {"quick": "all DAG shapes on n<=4 nodes x all node-kind assignments (al
 META = {
     "C01": dict(
         RULE=_RULE + "Oracle: returned value (and nesting) == harness evaluation.",
-        ASSUMPTIONS=_ASSUME, BUDGET=_BUD, FLOORS=_floors(100000, 1500000), EXHAUSTIVE_SPACE=_SPACE,
+        ASSUMPTIONS=_ASSUME, BUDGET=_BUD, FLOORS=_floors(100000, 540000), EXHAUSTIVE_SPACE=_SPACE,
         CLAIM="Every observed scheduler call (controlled executor over all completion orders of all small graphs; random "
               "schedules of larger graphs; real thread and process pools with injected delays/yields; sync; custom "
               "Executor through dask.compute) returned exactly the value and nesting the harness evaluator assigns to "
@@ -49,7 +49,7 @@ META = {
         RULE=_RULE + "Oracle: event history (task start/end with argument digests, pretask/posttask, cache set) vs "
                      "reference model: needed tasks exactly once, others never, dispatch only after dependencies stored, "
                      "arguments received == digests of the dependencies' values.",
-        ASSUMPTIONS=_ASSUME, BUDGET=_BUD, FLOORS=_floors(100000, 1500000), EXHAUSTIVE_SPACE=_SPACE,
+        ASSUMPTIONS=_ASSUME, BUDGET=_BUD, FLOORS=_floors(100000, 540000), EXHAUSTIVE_SPACE=_SPACE,
         CLAIM="In every observed scheduler call the recorded history (one logical clock) shows each needed task started "
               "exactly once, no unneeded task started, every dispatch happened after all dependency results were stored, "
               "and each task function received exactly its dependencies' values (argument digests).",
@@ -62,7 +62,7 @@ META = {
         RULE=_RULE + "Oracle: cache set/get/del history vs reference model: no del before all needed dependents stored, "
                      "never del a requested key, no read after del, cache at return == requested keys, state['released'] "
                      "== observed deletions.",
-        ASSUMPTIONS=_ASSUME, BUDGET=_BUD, FLOORS=_floors(100000, 1500000), EXHAUSTIVE_SPACE=_SPACE,
+        ASSUMPTIONS=_ASSUME, BUDGET=_BUD, FLOORS=_floors(100000, 540000), EXHAUSTIVE_SPACE=_SPACE,
         CLAIM="In every observed scheduler call the tracing cache (the scheduler's own result store) shows no result "
               "deleted before all its needed dependents had results, no requested key deleted, no read of a deleted "
               "key, and at return exactly the requested keys left. The property's 'model-checked abstract model' is not "
